@@ -72,6 +72,39 @@ _CMP = {_np.greater: _op.gt, _np.greater_equal: _op.ge, _np.less: _op.lt,
         _np.logical_and: _land, _np.logical_or: _lor,
         _np.logical_not: _lnot}
 _KEEP_DECL = set()
+_INT_ARITH = {_np.multiply, _np.add, _np.subtract}
+
+
+def _int_result_type(inputs):
+    """dtype numpy would compute in when every operand is an integer and
+    at least one is an array of a declared integer type narrower than 64
+    bits; None otherwise (floating point, or wide enough)"""
+    typed = []
+    for x in inputs:
+        if isinstance(x, SArr):
+            if x.decl is None or x.decl.kind not in 'iu':
+                return None
+            typed.append(x.decl)
+        elif isinstance(x, _np.ndarray):
+            if x.dtype == object:
+                return None
+            if x.dtype.kind not in 'iu':
+                return None
+            typed.append(x.dtype)
+        elif isinstance(x, (bool, _np.bool_)):
+            return None
+        elif isinstance(x, _np.integer):
+            typed.append(x.dtype)
+        elif isinstance(x, int) or isinstance(x, SInt):
+            continue                      # weak: adopts the array's type
+        else:
+            return None
+    if not typed:
+        return None
+    dt = _np.result_type(*typed)
+    if dt.kind not in 'iu' or dt.itemsize >= 8:
+        return None
+    return dt
 
 
 class SArr(_np.ndarray):
@@ -119,6 +152,24 @@ class SArr(_np.ndarray):
                 and not isinstance(r, SArr):
             r = r.view(SArr)
             r.decl = self.decl if ufunc in _KEEP_DECL else None
+        if method == '__call__' and ufunc in _INT_ARITH and \
+                isinstance(r, SArr):
+            dt = _int_result_type(inputs)
+            if dt is not None:
+                # arithmetic carried out in a narrow integer type (typed
+                # integer arrays combined with Python ints, which numpy
+                # treats as "weak"): the result has that type and must
+                # fit it
+                r.decl = dt
+                if core.CUR is not None and core.CUR.mode == 'sym':
+                    info = _np.iinfo(dt)
+                    for x in r.flat:
+                        if isinstance(x, Sym) and not isinstance(x, SBool):
+                            core.CUR.check(
+                                core.And(x >= int(info.min),
+                                         x <= int(info.max)),
+                                f"integer arithmetic ({ufunc.__name__}) "
+                                f"stays within {dt}")
         return r
 
     def __setitem__(self, k, v):
